@@ -221,6 +221,14 @@ func (f *FnVC) checkFuncArgs(callee *ssa.Function, pos token.Pos) {
 	}
 }
 
+// isGhostLemma: a function defined in a lemmas_verif.go file (build tag verif).
+func (f *FnVC) isGhostLemma(fn *ssa.Function) bool {
+	if fn == nil || !fn.Pos().IsValid() {
+		return false
+	}
+	return strings.HasSuffix(f.g.fset.Position(fn.Pos()).Filename, "lemmas_verif.go")
+}
+
 func (g *Gen) findExternOrRepo(name string) *Contract {
 	if c, ok := g.specs.Contracts[name]; ok {
 		return c
@@ -407,6 +415,24 @@ func (f *FnVC) applyCalls(ct *Contract, args []TV, vals []ssa.Value) {
 
 func (f *FnVC) applyContract(ct *Contract, callee *ssa.Function, sig *types.Signature, args []TV, v ssa.Value, pos token.Pos, name string) {
 	short := strings.TrimPrefix(name, f.g.modPath+"/")
+	if callee != nil && f.fn != nil && f.isGhostLemma(f.fn) {
+		// ghost lemmas: a recursive call is the induction hypothesis, so the recursion must be well-founded - some
+		// integer parameter strictly decreases and stays non-negative; calls to other lemmas may only go to lemmas
+		// declared EARLIER in the file (no cycles)
+		if callee == f.fn {
+			var alts []string
+			for i, p := range callee.Params {
+				if i < len(args) && args[i].Sort == "Int" {
+					if pv, ok := f.paramTV[p.Name()]; ok && pv.Sort == "Int" {
+						alts = append(alts, sAnd("(<= 0 "+args[i].T+")", "(< "+args[i].T+" "+pv.T+")"))
+					}
+				}
+			}
+			f.oblige("lemma.decreases", "recursive call of the lemma is on a smaller non-negative integer argument", sOr(alts...), pos)
+		} else if f.isGhostLemma(callee) && callee.Pos() >= f.fn.Pos() {
+			f.oblige("lemma.order", "a lemma only uses lemmas declared before it ("+callee.Name()+")", "false", pos)
+		}
+	}
 	env := f.baseEnv()
 	if ct.Pkg != "" {
 		env.pkg = ct.Pkg
